@@ -656,3 +656,6 @@ def run(chk, facts, tier, only=None):
         if only and only != rid:
             continue
         chk.run_rule(rid, desc, f)
+    if only is None:
+        import c19
+        chk.include(c19, "C19.R3", "C17.R5", facts)     # method names and labels printed as '…' literals are escaped (no raw quote, backslash or line terminator)
